@@ -46,6 +46,9 @@ pub struct RenderScenario {
     pub transient_seed: u64,
     /// property id violations are attributed to (C18, or C07 for the C07 batch)
     pub property: String,
+    /// also run the fixed F1 probe set (DESIGN.md §7)
+    #[serde(default)]
+    pub f1_probes: bool,
 }
 
 pub fn comp_probe_ctx(c: &CompInfo, with_extra: bool) -> SCtx {
@@ -124,6 +127,7 @@ pub fn generate(seed: u64, tier: &str, property: &str) -> RenderScenario {
         faults,
         transient_seed: rng.next_u64(),
         property: property.to_string(),
+        f1_probes: rng.chance(1, 8),
     }
 }
 
@@ -276,6 +280,10 @@ pub fn execute(sc: &RenderScenario, stats: &mut Stats) -> Outcome {
     let mut log = Fnv::new();
     let prop = sc.property.as_str();
     ahash::sim::reset(Mode::PerInstance, sc.hash_base);
+    if sc.f1_probes {
+        out.violations.extend(f1_probes(sc.hash_base, stats));
+        ahash::sim::reset(Mode::PerInstance, sc.hash_base);
+    }
     let mut t = new_tera(&sc.config);
     stats.inc("worlds");
     match catch(|| t.add_raw_templates(sc.templates.iter().map(|(n, s)| (n.as_str(), s.as_str())))) {
@@ -695,6 +703,11 @@ pub fn shrink_candidates(sc: &RenderScenario) -> Vec<RenderScenario> {
     if sc.config.custom {
         let mut c = sc.clone();
         c.config.custom = false;
+        out.push(c);
+    }
+    if sc.f1_probes {
+        let mut c = sc.clone();
+        c.f1_probes = false;
         out.push(c);
     }
     if !sc.config.global.0.is_empty() {
